@@ -109,6 +109,9 @@ def sortable(value):
                     return False
                 if len({type(k) for k in keys if isinstance(k, (int, float))}) > 1:
                     return False
+                # the fallback compares (module, qualname) of the key types; the model knows the names of the built-in types only
+                if any(type(k) not in (int, float, bool, str, bytes, tuple, type(None), type(Ellipsis)) for k in keys):
+                    return False
             # tuples of different length/shape compare fine only if elementwise families agree: be conservative
             return all(walk(k) and walk(x) for k, x in v0.items())
         if isinstance(v0, (list, tuple, set, frozenset)):
@@ -1432,7 +1435,8 @@ def mix_value(rng, depth=0):
         elif r < 0.45:
             v = {}
             for _ in range(n):
-                k = rng.choice([plain_leaf(), (1, 'k'), datetime.date(2020, 1, 1)])
+                k = rng.choice([plain_leaf(), (1, 'k'), datetime.date(2020, 1, 1), S.make(rng, str, 'subkey'), S.make(rng, tuple, (1, 2)), sec_stdlib.Point(1, 2),
+                                uuid.UUID(int=3), pathlib.PurePosixPath('/k')])
                 try:
                     v[k] = mix_value(rng, depth + 1)
                 except TypeError:
@@ -1500,7 +1504,9 @@ def mix_chunk(cases):
     drv = _driver()
     mism, fails = [], []
     n = nt = 0
-    for (value, sets) in cases:
+    for case in cases:
+        value, sets = case[0], case[1]
+        with_model = case[2] if len(case) > 2 else True
         try:
             sx = sec_stdlib.sx(value)
         except Exception:
@@ -1514,10 +1520,15 @@ def mix_chunk(cases):
             n += 1
             if 'printer-failed' in kinds or 'raised' in kinds:
                 warned = (st, kinds)
+            elif not with_model:
+                # no model to compare with (keys the model does not order): at least the same call gives the same text again
+                p2, text2, _k = impl_piece(value, st)
+                if text2 != text and len(fails) < 3:
+                    fails.append({'kind': 'output-not-deterministic', 'settings': st, 'value': repr(value)[:300], 'text': (text or '')[:300], 'again': (text2 or '')[:300]})
         if len(set(texts)) > 1:
             nt += 1
-        g = drv.ask('(pformat %s %s)' % (sx, ' '.join(settings_sx(*st) for st in sets)))
-        if g != '(ok ' + ' '.join(pieces) + ')':
+        g = drv.ask('(pformat %s %s)' % (sx, ' '.join(settings_sx(*st) for st in sets))) if with_model else None
+        if with_model and g != '(ok ' + ' '.join(pieces) + ')':
             for st, p in zip(sets, pieces):
                 g1 = drv.ask('(pformat %s %s)' % (sx, settings_sx(*st)))
                 if g1 != '(ok ' + p + ')':
@@ -1561,7 +1572,9 @@ def mix_section(tier, seed):
         v = mix_value(rng)
         plain = V.strip_comments(v)
         limits = [(None, 1000), (None, None), (rng.choice([0, 1, 2, 3]), 1000), (None, rng.choice([1, 2, 3])), (rng.choice([1, 2, 3]), rng.choice([1, 2, 5]))]
-        srt = 1 if rng.random() < 0.4 and sortable_deep(v) and not comment_inside_tuple_key(v) else 0
+        can_model_sort = sortable_deep(v) and not comment_inside_tuple_key(v)
+        srt = 1 if rng.random() < 0.4 else 0
+        with_model = can_model_sort or srt == 0
         sets = []
         for (d, m) in rng.sample(limits, 2):
             for _ in range(3):
@@ -1570,7 +1583,7 @@ def mix_section(tier, seed):
                 if V.ribbon_ok(w, r):
                     sets.append((rng.choice([1, 2, 4, 8]), w, r, d, m, srt))
         if sets:
-            cases.append((v, sets))
+            cases.append((v, sets, with_model))
     chunks = [cases[i:i + 25] for i in range(0, len(cases), 25)]
     tot = nt = 0
     mism, fails = [], []
